@@ -44,16 +44,35 @@ impl<const P: u16> Fp<P> {
         kani::assume(v < P && v != 0);
         Fp(v)
     }
-    pub fn pow(self, mut e: u32) -> Self {
+    /// self^e for e < 2^16, as straight-line code (no loop: harness unwind bounds stay independent of it)
+    pub fn pow(self, e: u32) -> Self {
+        let mut acc = Fp::<P>(1 % P);
         let mut base = self;
-        let mut acc = Fp::<P>(1);
-        while e > 0 {
-            if e & 1 == 1 {
-                acc = acc * base;
-            }
-            base = base * base;
-            e >>= 1;
+        macro_rules! step {
+            ($bit:expr) => {
+                if (e >> $bit) & 1 == 1 {
+                    acc = acc * base;
+                }
+                base = base * base;
+            };
         }
+        step!(0);
+        step!(1);
+        step!(2);
+        step!(3);
+        step!(4);
+        step!(5);
+        step!(6);
+        step!(7);
+        step!(8);
+        step!(9);
+        step!(10);
+        step!(11);
+        step!(12);
+        step!(13);
+        step!(14);
+        step!(15);
+        let _ = base;
         acc
     }
     /// deterministic inverse (Fermat); 0 -> 0
@@ -169,31 +188,33 @@ impl<const P: u16> FromPrimitive for Fp<P> {
     fn from_u64(n: u64) -> Option<Self> {
         Some(Fp((n % P as u64) as u16))
     }
-    /// integer-valued floats map to their residue, k/den (den <= 1000) to k * den^-1.
-    /// (only ever called on literal constants of the code, i.e. concretely)
+    /// integer-valued floats map to their residue, k/den for den in {2,4,5,8,10,16,20,100,1000} to
+    /// k * den^-1 (straight-line, no loop).  Only ever called on literal constants of the code.
+    /// Other constants (1e-8 ... thresholds, not algebra) map to zero.
     fn from_f64(x: f64) -> Option<Self> {
         if !x.is_finite() {
             return None;
         }
-        let mut den = 1u32;
-        while den <= 1000 {
-            let y = x * den as f64;
-            if y == y.trunc() && y.abs() < 1e15 {
-                if den as u16 % P == 0 && den >= P as u32 {
-                    den += 1;
-                    continue;
+        macro_rules! try_den {
+            ($den:expr) => {
+                let y = x * ($den as f64);
+                if y == y.trunc() && y.abs() < 1e15 && ($den as u32) % (P as u32) != 0 {
+                    let num = Self::from_i64_mod(y as i64);
+                    let d = Self::from_i64_mod($den as i64);
+                    return Some(num * d.inv_det());
                 }
-                let num = Self::from_i64_mod(y as i64);
-                let d = Self::from_i64_mod(den as i64);
-                if d.0 == 0 {
-                    den += 1;
-                    continue;
-                }
-                return Some(num * d.inv_det());
-            }
-            den += 1;
+            };
         }
-        // constants such as 1e-8 that are thresholds, not algebra: map to zero
+        try_den!(1);
+        try_den!(2);
+        try_den!(4);
+        try_den!(5);
+        try_den!(8);
+        try_den!(10);
+        try_den!(16);
+        try_den!(20);
+        try_den!(100);
+        try_den!(1000);
         Some(Fp(0))
     }
 }
@@ -327,7 +348,14 @@ impl<const P: u16> Float for Fp<P> {
 }
 
 impl<const P: u16> FloatConst for Fp<P> {
-    unimpl0! { E FRAC_1_PI FRAC_1_SQRT_2 FRAC_2_PI FRAC_2_SQRT_PI FRAC_PI_2 FRAC_PI_3 FRAC_PI_4 FRAC_PI_6 FRAC_PI_8 LN_10 LN_2 LOG10_E LOG2_E PI SQRT_2 }
+    unimpl0! { E FRAC_1_PI FRAC_2_PI FRAC_2_SQRT_PI FRAC_PI_2 FRAC_PI_3 FRAC_PI_4 FRAC_PI_6 FRAC_PI_8 LN_10 LN_2 LOG10_E LOG2_E PI }
+    /// a root of 2 (exists iff P = +-1 mod 8, e.g. P = 17, 31); cut otherwise (see sqrt)
+    fn SQRT_2() -> Self {
+        Float::sqrt(Fp::<P>(2 % P))
+    }
+    fn FRAC_1_SQRT_2() -> Self {
+        Float::recip(Float::sqrt(Fp::<P>(2 % P)))
+    }
 }
 
 #[cfg(kani)]
